@@ -236,83 +236,85 @@ def _relay_bool_worker(arg):
         for rets in itertools.product(range(len(RETS)), repeat=nh):
             for prios in (tuple(range(nh, 0, -1)), (1,) * nh):
                 for kind in ("relay", "boolean"):
-                    idx += 1
-                    if idx % n != wid:
-                        continue
-                    count += 1
-                    log = []
-                    keys = []
-                    for i in range(nh):
-                        def h(_i=i, **kwargs):
-                            log.append((_i, {k: v for k, v in kwargs.items()}))
-                            r = RETS[rets[_i]]
-                            return dict(r) if isinstance(r, dict) else r
-                        keys.append(em.add_handler("ev", h, priority=prios[i]))
-                    res = []
-                    if kind == "relay":
-                        em.post_relay("ev", callback=lambda **kw: res.append(kw), x=0)
-                    else:
-                        em.post_boolean("ev", callback=lambda **kw: res.append(kw), x=0)
-                    em.process_event_queue()
-                    sysm.loop.drain()
-                    em.remove_handlers_by_keys(keys)
-                    # ---- oracle ----
-                    prog = {"kind": kind, "returns": [RETS[r] for r in rets], "priorities": prios}
-                    called = [i for i, _ in log]
-
-                    def bad(sig, msg):
-                        if sig not in viols:
-                            viols[sig] = (msg, prog, [(i, kw) for i, kw in log], res)
-                    if len(res) != 1:
-                        bad("%s-callback-count" % kind, "callback ran %d times" % len(res))
-                        continue
-                    if kind == "relay":
-                        # each handler sees posted kwargs updated by all earlier handlers' dicts
-                        cur = {"x": 0}
-                        seen = set()
-                        for i, kw in log:
-                            if kw != cur:
-                                bad("relay-args", "handler #%d received %r, expected %r" % (i, kw, cur))
-                            r = RETS[rets[i]]
-                            if isinstance(r, dict):
-                                cur = dict(cur)
-                                cur.update(r)
-                                relays += 1
-                            seen.add(i)
-                        if sorted(called) != list(range(nh)):
-                            bad("relay-complete", "handlers called %r of %d" % (called, nh))
-                        final = {k: v for k, v in res[0].items() if k != "ev_result"}
-                        if final != cur:
-                            bad("relay-result", "callback got %r, expected final arguments %r" % (res[0], cur))
-                    else:
-                        # stops at the first handler returning False and reports that result
-                        stop_at = None
-                        for pos, (i, kw) in enumerate(log):
-                            if RETS[rets[i]] is False:
-                                stop_at = pos
-                                break
-                        if stop_at is not None:
-                            stops += 1
-                            if len(log) != stop_at + 1:
-                                bad("boolean-continued", "handlers %r ran after #%d returned False" %
-                                    (called[stop_at + 1:], called[stop_at]))
-                            if res[0].get("ev_result") is not False:
-                                bad("boolean-result", "a handler returned False but the callback got %r" % (res[0],))
+                    for posted, hkw in (({"x": 0}, False), ({}, True), ({"x": 0}, True)):
+                        idx += 1
+                        if idx % n != wid:
+                            continue
+                        count += 1
+                        log = []
+                        keys = []
+                        for i in range(nh):
+                            def h(_i=i, **kwargs):
+                                log.append((_i, {k: v for k, v in kwargs.items()}))
+                                r = RETS[rets[_i]]
+                                return dict(r) if isinstance(r, dict) else r
+                            keys.append(em.add_handler("ev", h, priority=prios[i], **({"tag": i} if hkw else {})))
+                        res = []
+                        if kind == "relay":
+                            em.post_relay("ev", callback=lambda **kw: res.append(kw), **posted)
                         else:
+                            em.post_boolean("ev", callback=lambda **kw: res.append(kw), **posted)
+                        em.process_event_queue()
+                        sysm.loop.drain()
+                        em.remove_handlers_by_keys(keys)
+                        # ---- oracle ----
+                        prog = {"kind": kind, "returns": [RETS[r] for r in rets], "priorities": prios, "posted": posted, "handler_kwargs": hkw}
+                        called = [i for i, _ in log]
+
+                        def bad(sig, msg):
+                            if sig not in viols:
+                                viols[sig] = (msg, prog, [(i, kw) for i, kw in log], res)
+                        if len(res) != 1:
+                            bad("%s-callback-count" % kind, "callback ran %d times" % len(res))
+                            continue
+                        if kind == "relay":
+                            # each handler sees posted kwargs updated by all earlier handlers' dicts
+                            cur = dict(posted)
+                            seen = set()
+                            for i, kw in log:
+                                want = dict(cur, tag=i) if hkw else cur      # the handler's registered kwargs are merged in (they win)
+                                if kw != want:
+                                    bad("relay-args", "handler #%d received %r, expected %r" % (i, kw, want))
+                                r = RETS[rets[i]]
+                                if isinstance(r, dict):
+                                    cur = dict(cur)
+                                    cur.update(r)
+                                    relays += 1
+                                seen.add(i)
                             if sorted(called) != list(range(nh)):
-                                bad("boolean-complete", "no handler returned False but only %r of %d ran" % (called, nh))
-                            if res[0].get("ev_result") is False:
-                                bad("boolean-result", "no handler returned False but callback got ev_result=False")
-                        for i, kw in log:
-                            if {k: v for k, v in kw.items() if k != "_min_priority"} != {"x": 0}:
-                                bad("boolean-args", "handler #%d received %r" % (i, kw))
-                    ps = [prios[i] for i in called]
-                    if any(ps[k] < ps[k + 1] for k in range(len(ps) - 1)):
-                        bad("%s-priority" % kind, "handlers ran in priority order %r" % ps)
-                    outcomes.add((kind, tuple(called), repr(sorted(res[0].items()))))
-                    if sysm.loop.exc_log:
-                        bad("%s-exception" % kind, repr(sysm.loop.exc_log[0]))
-                        sysm.loop.exc_log = []
+                                bad("relay-complete", "handlers called %r of %d" % (called, nh))
+                            final = {k: v for k, v in res[0].items() if k != "ev_result"}
+                            if final != cur:
+                                bad("relay-result", "callback got %r, expected final arguments %r" % (res[0], cur))
+                        else:
+                            # stops at the first handler returning False and reports that result
+                            stop_at = None
+                            for pos, (i, kw) in enumerate(log):
+                                if RETS[rets[i]] is False:
+                                    stop_at = pos
+                                    break
+                            if stop_at is not None:
+                                stops += 1
+                                if len(log) != stop_at + 1:
+                                    bad("boolean-continued", "handlers %r ran after #%d returned False" %
+                                        (called[stop_at + 1:], called[stop_at]))
+                                if res[0].get("ev_result") is not False:
+                                    bad("boolean-result", "a handler returned False but the callback got %r" % (res[0],))
+                            else:
+                                if sorted(called) != list(range(nh)):
+                                    bad("boolean-complete", "no handler returned False but only %r of %d ran" % (called, nh))
+                                if res[0].get("ev_result") is False:
+                                    bad("boolean-result", "no handler returned False but callback got ev_result=False")
+                            for i, kw in log:
+                                if {k: v for k, v in kw.items() if k != "_min_priority"} != (dict(posted, tag=i) if hkw else posted):
+                                    bad("boolean-args", "handler #%d received %r" % (i, kw))
+                        ps = [prios[i] for i in called]
+                        if any(ps[k] < ps[k + 1] for k in range(len(ps) - 1)):
+                            bad("%s-priority" % kind, "handlers ran in priority order %r" % ps)
+                        outcomes.add((kind, tuple(called), repr(sorted(res[0].items()))))
+                        if sysm.loop.exc_log:
+                            bad("%s-exception" % kind, repr(sysm.loop.exc_log[0]))
+                            sysm.loop.exc_log = []
     sysm.close()
     return count, viols, stops, relays, len(outcomes)
 
